@@ -146,12 +146,6 @@ structure WinX where
   /-- the references the application holds (the harness's tally: create +1, ref +1, unref -1, and -1 when a
       destroyed parent takes the creation reference of a child still linked to it) -/
   appRefs : Nat := 1
-  /-- the window this one was created under -/
-  cparent : Option Id := none
-  /-- the application has closed this window itself -/
-  detached : Bool := false
-  /-- its destroyed parent has taken the creation reference -/
-  consumed : Bool := false
 deriving Repr, Inhabited
 
 /-- What an ON_CHANGE handler of a pen does: drop or take a reference to a pen. -/
@@ -619,22 +613,25 @@ def termUnref (st : St) : Out St :=
   (`destroyT`, which returns the windows it freed, in the order they were freed) and releases their belongings
   afterwards (`releaseWin`). -/
 
+/-- What a cascade reports: the tree, the windows freed (in order), and the children whose creation reference a
+    dying parent has dropped (whether or not they survived). -/
+abbrev Casc3 := Tree × List Id × List Id
+
 /-- One turn of the children loop of `tickit_window_destroy`
     (`for(child = first_child; child; child = next) { next = child->next; … }`). -/
-def destroyStep (cfg : Cfg) (unrefChild : Tree → Id → Out (Tree × List Id)) (acc : Tree × List Id) (c : Id) :
-    Out (Tree × List Id) := do
+def destroyStep (cfg : Cfg) (unrefChild : Tree → Id → Out Casc3) (acc : Casc3) (c : Id) : Out Casc3 := do
   let _ ← ofRes (WinTree.get acc.1 c)                      -- next = child->next
   if cfg.destroyClosesChildren then
     let t ← closeT cfg acc.1 c
     let r ← unrefChild t c
-    pure (r.1, acc.2 ++ r.2)
+    pure (r.1, acc.2.1 ++ r.2.1, acc.2.2 ++ (c :: r.2.2))
   else
     let r ← unrefChild acc.1 c
     match r.1.wins[c]? with
     | none => .ub .mem s!"unknown window {c}"
     | some cw =>
       if cw.freed then .ub .mem s!"tickit_window_destroy: child->parent = NULL written into freed child {c}"
-      else pure (WinTree.set r.1 c { cw with parent := none }, acc.2 ++ r.2)
+      else pure (WinTree.set r.1 c { cw with parent := none }, acc.2.1 ++ r.2.1, acc.2.2 ++ (c :: r.2.2))
 
 /-- The end of `tickit_window_destroy` for the root: after the repair the requests still queued are freed; the
     drag context goes with the struct. -/
@@ -655,33 +652,32 @@ def rootCleanupIf (cfg : Cfg) (t : Tree) (w : Win) : Tree :=
 
 /-- `tickit_window_destroy` on the tree, given the function that drops one reference of a child.
     Returns the tree and the windows freed (in order). -/
-def destroyTWith (cfg : Cfg) (unrefChild : Tree → Id → Out (Tree × List Id)) (t : Tree) (win : Id) :
-    Out (Tree × List Id) := do
+def destroyTWith (cfg : Cfg) (unrefChild : Tree → Id → Out Casc3) (t : Tree) (win : Id) : Out Casc3 := do
   let w ← ofRes (WinTree.get t win)
-  let r ← w.children.foldlM (destroyStep cfg unrefChild) (t, [])
+  let r ← w.children.foldlM (destroyStep cfg unrefChild) (t, [], [])
   let t := r.1
   let w ← ofRes (WinTree.get t win)
   let t ← purgeIfLinked cfg t win w
   let w ← ofRes (WinTree.get t win)
   let t ← closeIfOpen cfg t win w
   let w ← ofRes (WinTree.get t win)
-  pure (WinTree.set (rootCleanupIf cfg t w) win { w with freed := true }, r.2 ++ [win])
+  pure (WinTree.set (rootCleanupIf cfg t w) win { w with freed := true }, r.2.1 ++ [win], r.2.2)
 
 /-- `tickit_window_unref` on the tree, given `tickit_window_destroy`. -/
-def unrefTWith (destroy : Tree → Id → Out (Tree × List Id)) (t : Tree) (win : Id) : Out (Tree × List Id) := do
+def unrefTWith (destroy : Tree → Id → Out Casc3) (t : Tree) (win : Id) : Out Casc3 := do
   let w ← ofRes (WinTree.get t win)
   if w.refcount < 1 then .ub .abort s!"tickit_window_unref: invalid refcount on window {win}"
   else
     let t := WinTree.set t win { w with refcount := w.refcount - 1 }
-    if w.refcount - 1 = 0 then destroy t win else pure (t, [])
+    if w.refcount - 1 = 0 then destroy t win else pure (t, [], [])
 
 /-- `tickit_window_destroy` with the recursion budget `fuel` (depth of the subtree). -/
-def destroyT (cfg : Cfg) : Nat → Tree → Id → Out (Tree × List Id)
+def destroyT (cfg : Cfg) : Nat → Tree → Id → Out Casc3
   | 0, _, _ => .fuel
   | fuel + 1, t, win => destroyTWith cfg (unrefTWith (destroyT cfg fuel)) t win
 
 /-- `tickit_window_unref` on the tree. -/
-def unrefT (cfg : Cfg) (t : Tree) (win : Id) : Out (Tree × List Id) :=
+def unrefT (cfg : Cfg) (t : Tree) (win : Id) : Out Casc3 :=
   unrefTWith (destroyT cfg (chainFuel t)) t win
 
 /-- Drop the pen a window holds (`if(win->pen) tickit_pen_unref(win->pen)`). -/
@@ -704,19 +700,15 @@ def releaseWin (st : St) (win : Id) : Out St := do
     else termUnref st
   else pure st
 
-/-- The application's bookkeeping after windows have died (the harness's `sync_consumed`): a window that was
-    still linked to a parent that is now dead has lost its creation reference to that parent. -/
-def consume (st : St) (dead : List Id) : St :=
-  { st with wx := st.wx.map (fun x =>
-      match x.cparent with
-      | some p => if !x.consumed && !x.detached && dead.contains p then { x with consumed := true, appRefs := x.appRefs - 1 } else x
-      | none => x) }
+/-- The application's bookkeeping after a cascade (the harness's `sync_consumed`): for every child whose creation
+    reference a dying parent has dropped, the application gives up one of its references. -/
+def consume (st : St) (dropped : List Id) : St :=
+  dropped.foldl (fun st i => setX st i { getX st i with appRefs := (getX st i).appRefs - 1 }) st
 
 /-- `tickit_window_unref`. -/
 def unrefW (cfg : Cfg) (st : St) (win : Id) : Out St := do
-  let (t, dead) ← unrefT cfg st.tree win
-  let st ← dead.foldlM releaseWin { st with tree := t }
-  pure (consume st dead)
+  let r ← unrefT cfg st.tree win
+  r.2.1.foldlM releaseWin (consume { st with tree := r.1 } r.2.2)
 
 /-- `tickit_window_ref`. -/
 def refW (st : St) (win : Id) : Out St := do
@@ -745,7 +737,7 @@ def newWin (st : St) (parent : Id) (rect : Rect) (hidden lowest rootParent steal
   let id := st.tree.wins.size
   let w : Win := { parent := some pr.1, rect := pr.2, isVisible := !hidden, stealInput := steal }
   let t : Tree := { st.tree with wins := st.tree.wins.push w }
-  let wx := (st.wx ++ Array.replicate (id - st.wx.size) ({} : WinX)).push { cparent := some pr.1 }
+  let wx := (st.wx ++ Array.replicate (id - st.wx.size) ({} : WinX)).push {}
   let t ← doHC t (if lowest then .insertLast else .insertFirst) pr.1 id
   pure ({ st with tree := t, wx := wx }, id)
 
@@ -898,7 +890,7 @@ def simpleOp (cfg : Cfg) (st : St) (a : Act) (self : Option (Id × Int)) : Optio
   | .ref w => if heldW st w then
       some (refW (setX st w { getX st w with appRefs := (getX st w).appRefs + 1 }) w) else none
   | .close w => if heldW st w then
-      some (liftT (setX st w { getX st w with detached := true }) (closeT cfg st.tree w)) else none
+      some (liftT st (closeT cfg st.tree w)) else none
   | .restack c w => if usableW st w && isRestack c then some (liftT st (request st.tree c w)) else none
   | .hide w => if usableW st w then some (liftT st (hideT st.tree w)) else none
   | .«show» w => if usableW st w then some (liftT st (showT st.tree w)) else none
